@@ -13,6 +13,7 @@ import (
 	"os"
 	"runtime"
 	"strings"
+	"sync"
 	"time"
 
 	"github.com/samsarahq/thunder/federation"
@@ -130,13 +131,28 @@ func c15Bombs(n int) map[string]string {
 	}
 	fmt.Fprintf(&b, "fragment G%d on XA { z }\n", n)
 	out["nested"] = b.String()
-	b.Reset()
-	b.WriteString("query Q { a { ...H0 } }\n")
-	for i := 0; i < n; i++ {
-		fmt.Fprintf(&b, "fragment H%d on XA { p: a2Ex { ...H%d } p: a2Ex { ...H%d z } q: a2Ex { ...H%d } q: a2Ex { ...H%d z } }\n", i, i+1, i+1, i+1, i+1)
+	for _, rep := range []int{2, 3, 5, 6} {
+		b.Reset()
+		b.WriteString("query Q { a { ...H0 } }\n")
+		for i := 0; i < n; i++ {
+			fmt.Fprintf(&b, "fragment H%d on XA {", i)
+			for _, al := range []string{"p", "q"} {
+				for k := 0; k < rep; k++ {
+					extra := ""
+					if k > 0 {
+						extra = " z"
+					}
+					if k > 1 {
+						extra = fmt.Sprintf(" z k%d: z", k)
+					}
+					fmt.Fprintf(&b, " %s: a2Ex { ...H%d%s }", al, i+1, extra)
+				}
+			}
+			b.WriteString(" }\n")
+		}
+		fmt.Fprintf(&b, "fragment H%d on XA { z }\n", n)
+		out[fmt.Sprintf("merged%d", rep)] = b.String()
 	}
-	fmt.Fprintf(&b, "fragment H%d on XA { z }\n", n)
-	out["merged"] = b.String()
 	return out
 }
 
@@ -278,6 +294,23 @@ func c15MutateBytes(r *Rand, s string) string {
 	return string(b)
 }
 
+// c15RotateSels moves the last selection of every selection set to the front.
+func c15RotateSels(ss *xSelSet, seen map[*xSelSet]bool) {
+	if ss == nil || seen[ss] {
+		return
+	}
+	seen[ss] = true
+	if n := len(ss.Sels); n > 1 {
+		ss.Sels = append([]*xSel{ss.Sels[n-1]}, ss.Sels[:n-1]...)
+	}
+	for _, s := range ss.Sels {
+		c15RotateSels(s.Sub, seen)
+	}
+	for _, f := range ss.Frags {
+		c15RotateSels(f.Set, seen)
+	}
+}
+
 func c15RandJSON(r *Rand, depth int) interface{} {
 	switch r.Intn(8) {
 	case 0:
@@ -412,8 +445,31 @@ func c15BuildCancelSchema() *graphql.Schema {
 
 type c15CancelCase struct {
 	Target string `json:"target"` // http | federation
-	When   string `json:"when"`   // none | before | during | after
+	When   string `json:"when"`   // none | before | during | after | look
+	Look   int    `json:"look"`   // when = look: cancel right after the k-th time anybody looks at the context
 }
+
+// c15LookCtx cancels itself right after the k-th call of Done / Err: every point at which the
+// code under test consults the context becomes a cancellation point.
+type c15LookCtx struct {
+	context.Context
+	cancel context.CancelFunc
+	mu     sync.Mutex
+	left   int
+}
+
+func (c *c15LookCtx) look() {
+	c.mu.Lock()
+	c.left--
+	fire := c.left == 0
+	c.mu.Unlock()
+	if fire {
+		c.cancel()
+	}
+}
+
+func (c *c15LookCtx) Done() <-chan struct{} { d := c.Context.Done(); c.look(); return d }
+func (c *c15LookCtx) Err() error           { e := c.Context.Err(); c.look(); return e }
 
 // c15Cancel runs one request with a cancellation point and reports whether the call returned.
 func c15Cancel(c *Ctx, m *Model, cs c15CancelCase) {
@@ -423,7 +479,11 @@ func c15Cancel(c *Ctx, m *Model, cs c15CancelCase) {
 	gate := &c15Gate{started: make(chan struct{}), release: make(chan struct{})}
 	ctx, cancel := context.WithCancel(context.WithValue(context.Background(), c15GateKey{}, gate))
 	defer cancel()
+	if cs.When == "look" {
+		ctx = &c15LookCtx{Context: ctx, cancel: cancel, left: cs.Look}
+	}
 	done := make(chan string, 1)
+	helperStop := make(chan struct{})
 	labels := []string{}
 	switch cs.When {
 	case "before":
@@ -433,6 +493,8 @@ func c15Cancel(c *Ctx, m *Model, cs c15CancelCase) {
 		labels = []string{"sched", "cancel", "finish", "wake", "stopped"}
 	case "none", "after":
 		labels = []string{"sched", "finish", "wake", "stopped"}
+	case "look":
+		labels = nil // decided after the fact: did the resolver start?
 	}
 	go func() {
 		defer func() {
@@ -475,6 +537,16 @@ func c15Cancel(c *Ctx, m *Model, cs c15CancelCase) {
 		case <-time.After(3 * time.Second):
 		}
 		close(gate.release)
+	case "look":
+		// let the resolver finish if it was started and nobody cancelled
+		go func() {
+			select {
+			case <-gate.started:
+				time.Sleep(2 * time.Millisecond)
+				close(gate.release)
+			case <-helperStop:
+			}
+		}()
 	}
 	outcome := "hang"
 	select {
@@ -483,6 +555,23 @@ func c15Cancel(c *Ctx, m *Model, cs c15CancelCase) {
 	}
 	if cs.When == "after" {
 		cancel()
+	}
+	close(helperStop)
+	if cs.When == "look" {
+		started := false
+		select {
+		case <-gate.started:
+			started = true
+		default:
+		}
+		switch {
+		case ctx.Err() == nil:
+			labels = []string{"sched", "finish", "wake", "stopped"}
+		case started:
+			labels = []string{"sched", "cancel", "finish", "wake", "stopped"}
+		default:
+			labels = []string{"cancel", "sched", "wake", "stopped"}
+		}
 	}
 	// the model's verdict for this schedule
 	resp, err := m.Call(map[string]interface{}{"op": "oneshot", "labels": labels, "repaired": true})
@@ -510,6 +599,9 @@ func c15Cancel(c *Ctx, m *Model, cs c15CancelCase) {
 	if leaked > 0 {
 		rep.Fail("impl_ne_spec", nil, cs, map[string]interface{}{"what": "goroutines left behind after the request returned", "leaked": leaked})
 		return
+	}
+	if cs.When == "look" {
+		rep.Count(fmt.Sprintf("cancel:%s:look:%s", cs.Target, labels[0]+"-first"))
 	}
 	rep.Count("cancel:" + cs.Target + ":" + cs.When)
 	rep.Eval("cancel"+cs.Target+cs.When+fmt.Sprint(c.Rng.Intn(1<<30)), true, map[string]interface{}{"target": cs.Target, "when": cs.When})
@@ -565,6 +657,11 @@ func runC15(c *Ctx) error {
 			}
 		}
 	}
+	for _, target := range []string{"http", "federation"} {
+		for k := 1; k <= c.N(14, 30); k++ {
+			c15Cancel(c, m, c15CancelCase{Target: target, When: "look", Look: k})
+		}
+	}
 	// cost
 	for n := 1; n <= c.N(24, 40) && !c.Rep.ShouldStop(); n++ {
 		for kind, q := range c15Bombs(n) {
@@ -589,8 +686,16 @@ func runC15(c *Ctx) error {
 	}
 	for i := 0; i < c.N(1500, 60000) && !c.Rep.ShouldStop(); i++ {
 		q := genXQuery(c.Rng, 2, 0.3, 0)
+		if c.Rng.Chance(0.35) {
+			// an ill-forming mutation of the selection tree (C14's repertoire), sometimes placed first
+			c14Mutate(c.Rng, q)
+			if c.Rng.Chance(0.5) {
+				c15RotateSels(q.Set, map[*xSelSet]bool{})
+				q.Text = q.render()
+			}
+		}
 		text := q.Text
-		if c.Rng.Chance(0.85) {
+		if c.Rng.Chance(0.6) {
 			text = c15MutateBytes(c.Rng, text)
 		}
 		vars := map[string]interface{}{}
